@@ -458,7 +458,7 @@ void chain_describe(const chaindesc_t *d, char *out, size_t n){
 static const char *fnames[F_NKINDS]={"none","read_err","read_zero","read_one","seek_fail","tell_fail"};
 const char *fault_name(int k){ return (k>=0&&k<F_NKINDS)?fnames[k]:"?"; }
 void memsrc_init(memsrc_t *m, const unsigned char *d, size_t n, int seekmode){
-  memset(m,0,sizeof *m); m->data=d; m->len=(int64_t)n; m->seekmode=seekmode; m->rs=RS_FULL;
+  memset(m,0,sizeof *m); m->data=d; m->len=(int64_t)n; m->seekmode=seekmode; m->rs=RS_FULL; m->errno_dirty=memsrc_errno_dirty_default;
 }
 void memsrc_schedule(memsrc_t *m, int rs, int cap, uint64_t seed){ m->rs=rs; m->rs_cap=cap>0?cap:1; rng_seed(&m->rs_rng,seed,0x77,(uint64_t)rs); }
 void memsrc_fault(memsrc_t *m, int kind, long at, int persist){ m->f_kind=kind; m->f_at=at; m->f_persist=persist; m->f_on=1; m->f_fired=0; }
@@ -467,6 +467,7 @@ static void ms_tick(memsrc_t *m){
   m->n_calls++;
   if(m->budget>0){ if(++m->budget_used>m->budget){ m->overrun=1; if(m->jb) siglongjmp(*m->jb,1); } }
 }
+int memsrc_errno_dirty_default=0;
 static int ms_fault_hit(memsrc_t *m, int cls, long idx){
   /* cls: 0 read,1 seek,2 tell.  Fault index is per callback kind. */
   if(!m->f_on) return 0;
@@ -495,6 +496,7 @@ static size_t ms_read(void *ptr, size_t size, size_t nmemb, void *ds){
   if(want) memcpy(ptr,m->data+m->pos,want);
   m->pos+=want; m->bytes_served+=want;
   /* errno is left alone, as fread leaves it: the library has to clear it itself before it draws conclusions from it */
+  if(m->errno_dirty && want>0 && idx%3!=1) errno=EINTR;   /* data was delivered after an interrupted attempt; a true end of data (0 bytes) leaves errno as the library set it */
   return size?want/size:0;
 }
 static int ms_seek(void *ds, ogg_int64_t off, int whence){
